@@ -196,15 +196,14 @@ def r3(ctx, facts, cfg):
         ok = bool(rp) and not pg.exists_path(ap, [pg.exit_node], avoid_nodes=rp)
         ctx.ob("C06.R3d", "_process_transit_event:flag-reset", ok,
                "the reused transit event's flush_flag is cleared after capture (a later event cannot signal a stale flag)", fn=pf)
-    # the Flush arm is selected by event() == Flush
+    # the Flush arm is selected by event() == Flush (a comparison, or the case of a switch over event())
+    from rules.common import enum_edges, label_matches
+    fe = enum_edges(pg, r"MacroMetadata::event$", "Flush")
     ok = False
-    for (bid, cond) in pg.branch_edges_on(lambda c: any(x["k"] == "DeclRefExpr" and x.get("name") == EVENT + "Flush" for x in walk(c))):
-        nc = norm_cmp(cond)
-        if nc and nc[0] == "==":
-            t = tnode(pg, bid)
-            if all(p in pg.reach([t], avoid_edges=[(bid, "F")]) for p in fpos) and \
-                    not pg.exists_path([pg.entry_node], fpos, avoid_edges=[(bid, "T")]):
-                ok = True
+    for (bid, lab) in fe:
+        start = [y for (y, l2) in pg.succ.get(tnode(pg, bid), ()) if label_matches(l2, lab)]
+        if bool(fpos) and all(p in start or p in pg.reach(start) for p in fpos) and not pg.exists_path([pg.entry_node], fpos, avoid_edges=[(bid, lab)]):
+            ok = True
     ctx.ob("C06.R3e", "_process_transit_event:flush-arm", ok, "the flush is performed exactly for events of kind Flush", fn=pf)
     # decode side: flush_flag member comes from the record
     df = facts.need(BW + "_populate_transit_event_from_frontend_queue", cfg)[0]
